@@ -96,7 +96,7 @@ def user_config(case: dict[str, Any]) -> dict[str, Any]:
     return config
 
 
-def run_both_steps(config: dict[str, Any], transforms: Any, fail: bool = False) -> dict[str, Any]:
+def run_both_steps(config: dict[str, Any], transforms: Any, fail: bool = False, share: bool = False) -> dict[str, Any]:
     from ropt.enums import EventType
     from ropt.plan import OptimizerContext, Plan
 
@@ -111,8 +111,10 @@ def run_both_steps(config: dict[str, Any], transforms: Any, fail: bool = False) 
     ev_step = plan.add_step("evaluator")
     opt_step = plan.add_step("optimizer")
     to_opt = (lambda x: x) if transforms is None or transforms.variables is None else transforms.variables.to_optimizer
-    plan.run_step(ev_step, config=copy.deepcopy(config), transforms=transforms, variables=to_opt(X_EVAL))
-    cfg = copy.deepcopy(config)
+    # (a shallow copy keeps configuration OBJECTS placed in the dictionary shared between the runs)
+    clone = dict if share else copy.deepcopy
+    plan.run_step(ev_step, config=clone(config), transforms=transforms, variables=to_opt(X_EVAL))
+    cfg = clone(config)
     # functions + gradients in one request, then - at another point - functions and gradients in separate requests (what
     # a gradient-based back-end does without speculative evaluation)
     cfg["optimizer"] = {"method": "verif/scripted", "options": {"script": [
@@ -186,6 +188,24 @@ def judge(case: dict[str, Any]) -> Judgement:
         j.fail(f"transformed-run-raised:{type(exc).__name__}", message=str(exc)[:200])
         return j
     j.transitions = 4
+    # ONE validated LinearConstraintsConfig object placed in the configuration of a transformed run and then of an
+    # untransformed run: the second use sees the user's constraints, not what the first validation made of them
+    if "linear_constraints" in config and not case.get("fail") and not case["obj"] and not case["con"]:
+        from ropt.config.enopt import LinearConstraintsConfig
+
+        shared = dict(config)
+        shared["linear_constraints"] = LinearConstraintsConfig.model_validate(copy.deepcopy(config["linear_constraints"]))
+        try:
+            run_both_steps(shared, transforms, False, share=True)
+            again = run_both_steps(shared, None, False, share=True)
+            j.transitions += 4
+            a_items, b_items = collect(plain["events"]), collect(again["events"])
+            for (name, a), (_, b) in zip(a_items, b_items):
+                if (a is None) != (b is None) or (a is not None and not close(b, a, 1e-9)):
+                    j.fail(f"shared-linear-constraints-object:second-use-differs:{name.split(':', 1)[1]}", first_use=a, second_use=b)
+                    break
+        except Exception as exc:  # noqa: BLE001
+            j.fail(f"shared-linear-constraints-object:raised:{type(exc).__name__}", message=str(exc)[:200])
     # evaluator rows
     if len(plain["rows"]) != len(trans["rows"]):
         j.fail("different-number-of-evaluator-calls", plain=len(plain["rows"]), transformed=len(trans["rows"]))
